@@ -213,6 +213,9 @@ func runC03(c *Ctx) {
 						}
 					}
 					s.Data(l, pl)
+					if k == 3 {
+						s.Data(l, pl) // the same message again, byte for byte: it is held twice
+					}
 				}
 				used = true
 			}
@@ -223,6 +226,44 @@ func runC03(c *Ctx) {
 			cl := p.runCall(id, "decode", s.Bytes(), plain, CallOpts{UM: 1}, true)
 			cl.Note = fmt.Sprintf("%s: repeating message_index, decreasing times", st.Name)
 			calls = append(calls, cl)
+		}
+	}
+	// 2c. one local type re-defined for one message after the other with the very
+	// same field layout (message_index only): each record belongs to the message
+	// its latest definition names
+	for _, st := range sch.Types {
+		s := newStream(12, false)
+		arch := byte(st.T % 2)
+		s.FileId(0, arch, byte(st.T))
+		n := 0
+		for _, sl := range st.Slots {
+			if sl.List != 1 || p.field(sl.M, 254) == nil {
+				continue
+			}
+			s.Def(1, arch, uint16(sl.M), []FieldDef{{254, 2, 0x84}}, nil)
+			for k := 0; k <= n%3; k++ {
+				s.Data(1, wire(u16le(uint16(n+k)), arch))
+			}
+			n++
+		}
+		if n < 2 {
+			continue
+		}
+		id++
+		cl := p.runCall(id, "decode", s.Bytes(), plain, CallOpts{UM: 1}, true)
+		cl.Note = fmt.Sprintf("%s: one local type, %d messages with the same layout", st.Name, n)
+		calls = append(calls, cl)
+	}
+	// 2d. a file that ends right after its file_id: the file type is judged all the same
+	for t := 0; t < 256; t++ {
+		s := newStream(12+2*(t%2), t%2 == 1)
+		s.FileId(t%16, byte(t%2), byte(t))
+		id++
+		cl := p.runCall(id, "decode", s.Bytes(), plain, CallOpts{}, true)
+		cl.Note = fmt.Sprintf("file type %d, nothing after the file_id", t)
+		calls = append(calls, cl)
+		if nferr := newFileErr(t); (nferr != nil) != (cl.Ret.Err == 1) {
+			c.report("newfile-vs-decode", fmt.Sprintf("NewFile(%d) error=%v but Decode of a file with only a file_id error=%v", t, nferr, cl.Ret.Err == 1), cl)
 		}
 	}
 	// 3. device files
